@@ -48,3 +48,54 @@ def path_matching():
     samples = [(rng.choice(pool), rng.choice(pool)) for _ in range(80)]
     job.validate("_is_path_connected_to_class", lambda p, c: concrete(Ev(fn).call(_self(), BStr.const(p), BStr.const(c))), _real, samples)
     return job.result()
+
+
+def reexport_key_matching():
+    """_module_name_check (the closure inside _get_shortest_public_reexport): a re-export key is taken to mention the
+    declaration `name` iff `name` is one of its dot-separated segments."""
+    import ast
+
+    from safeds_stubgen.stubs_generator import _helper as H
+    from vlib.ek.bstr import GList
+    from vlib.ek.evalr import find_nodes
+
+    job = KJob("C11")
+    n = 7 if THOROUGH else 6
+    outer = H._get_shortest_public_reexport
+    inner = find_nodes(outer, lambda nd: isinstance(nd, ast.FunctionDef) and nd.name == "_module_name_check")
+    if len(inner) != 1:
+        raise RuntimeError("closure _module_name_check not found")
+    alphabet = [ord(c) for c in "fx."]
+    text, name = BStr.var("t", n), BStr.var("nm", 2)
+
+    def dotted(s):  # non-empty segments
+        return z3.And(s.wf(alphabet, min_len=1), s.ch[0] != 46, s.at(s.ln - 1) != 46,
+                      *[z3.Not(z3.And(s.ln > i + 1, s.ch[i] == 46, s.ch[i + 1] == 46)) for i in range(s.cap - 1)])
+
+    ev = Ev(node=inner[0], globs=outer.__globals__)
+    out = ev.truth(ev.call(text, **{}) if False else _call_closure(ev, inner[0], text, name))
+    segs = text.split(".")
+    is_segment = z3.Or(*[z3.And(g, s.eq(name)) for g, s in segs.items])
+    name_ok = z3.And(name.wf([ord("f"), ord("x")], min_len=1))
+
+    def real(t, nm):
+        ns: dict = {}
+        src = ast.unparse(inner[0])
+        exec(src, {"is_module": False, "name": nm, "parent_name": ""}, ns)  # noqa: S102
+        return bool(ns["_module_name_check"](t))
+
+    job.prove("key_mentions_name_iff_segment", [dotted(text), name_ok], out == is_segment,
+              decode=lambda m: {"text": show(m, text), "name": show(m, name)},
+              replay=lambda i: (real(i["text"], i["name"]) != (i["name"] in i["text"].split(".")), f"closure returns {real(i['text'], i['name'])}"),
+              bound=f"keys up to {n} characters over {{f,x,.}} with non-empty segments, names of 1-2 characters; declaration (not module) mode, no parent",
+              regions={"name_fragments_in_two_segments": (
+                  z3.And(z3.Not(is_segment), text.contains(BStr.const(".").concat(name)), text.contains(name.concat(BStr.const(".")))),
+                  "a re-export key is taken to mention a declaration when '.<name>' and '<name>.' both occur somewhere in it, "
+                  "e.g. key 'a.fx.yf.b' for the name 'f' - no segment equals the name")})
+    return job.result()
+
+
+def _call_closure(ev, node, text, name):
+    """Evaluate the nested function with its free variables bound (is_module False, no parent)."""
+    env = {"is_module": False, "name": name, "parent_name": "", node.args.args[0].arg: text, "is_wildcard": False}
+    return ev.run_body(node.body, env)
